@@ -1829,7 +1829,9 @@ HTTP/1.1 200 Ok\r\n\r\n";
 			rpl = rpl200, rpz = strlenof(rpl200);
 		} else if (snprintf(fn, sizeof(fn), "echsq_%u.ics", u) < 0) {
 			rpl = rpl500, rpz = strlenof(rpl500);
-		} else if (chkpntedp(u) && chkpnt() < 0) {
+		} else if ((chkpntedp(u) ||
+			    /* marks exhausted, U might be among the unmarked */
+			    ichkpnts >= countof(chkpnts)) && chkpnt() < 0) {
 			rpl = rpl500, rpz = strlenof(rpl500);
 		} else if (fstatat(qdirfd, fn, &st, 0) < 0) {
 			ECHS_NOTI_LOG("can't find echsq_%u.ics", u);
